@@ -31,7 +31,7 @@ def run_batch(prop, exe, src, histories, trace=False, timeout=2400):
     for ln in out.splitlines():
         if ln.startswith("{"):
             res.append(json.loads(ln))
-    if any("harness_error" in r for r in res) or len(res) != len(histories):
+    if any("fatal_harness_error" in r for r in res) or len(res) != len(histories):
         raise RuntimeError("harness failed rc=%s (%d/%d results): %s" % (rc, len(res), len(histories), out[-1500:]))
     return res
 
@@ -200,11 +200,17 @@ def with_restarts(rng, h, every):
 def check(run, prop):
     run.rule = ("histories over the op alphabet {Add(channel,priority,id?,timeout?), StartPull(conn,channels), RunLoop, "
                 "Finish(conn,id,result,error in {None,'','boom','timeout','killed'}), Kill, Tick(dt), Disconnect, Choice(k), Wait, "
+                "WaitL(conn,[2-3 ids]) = rpc_qwait with several ids (finished/unfinished/unknown/repeated ids mixed), "
                 "Info, SetInfo, Stats, Advance(dt) = the clock moves and timed waits expire but the handletimeouts sweep has not run, "
                 "Drop(ids) = rpc_qdrop%s}: "
                 "corpus, then random histories of length 3..12 over 2-3 channels, 3-4 worker connections, "
                 "auto and client ids; 8%% of them from the drop family (1-3 clients wait on one job that is dropped; the id is killed "
-                "and re-added, finished, timed out or swept by the watchdog while they wait; noise ops in between); plus a breadth-first exploration of the model's state graph over the property's "
+                "and re-added, finished, timed out or swept by the watchdog while they wait; noise ops in between), 6%% from the re-add family, "
+                "4-10%% from the multi-id wait family (1-2 clients wait on lists of 2-3 jobs; while they are blocked ids are killed+re-added, dropped+"
+                "collected by another client, forgotten by the watchdog; jobs finish in any order with or without loop turns in between); "
+                "EVERY history ends with a drain: all connections disconnect, two loop turns, then a fresh worker pulls all channels until it "
+                "blocks - every accepted unfinished job must come out exactly once (black-box conservation, monitors bb_lost/bb_handout, from RPC "
+                "return values only: rpc_qadd ids, rpc_qinfo records probed after every op, rpc_qpull/rpc_qwait records); plus a breadth-first exploration of the model's state graph over the property's "
                 "bounded alphabet (2 channels, <=4 jobs, 3 worker connections + client connections that kill/finish/wait; 'small' = C16's ops, "
                 "'full' adds timeouts, failing finishes, Wait by two clients, Stats, Drop, pulls on both channels), states identified modulo "
                 "permutation of connections / of the two channels / of client names and time shift (ocaml/c16/driver.ml `canon`; self test "
@@ -214,9 +220,12 @@ def check(run, prop):
                 % (", Watchdog = dropdead, R = pickle round trip of the db" if prop == "C18" else ""))
     run.trusted = ["Coq 8.16.1 kernel (coqc); vm_compute in the Examples only",
                    "extraction (ExtrOcamlBasic directives only) + ocaml/c16/driver.ml (printing, parsing, enum alphabet)",
-                   "hand-written model coq/C16/Model.v of jobs.py/qserve.py/rpcserver connection life cycle; tie = differential run after every op",
+                   "hand-written model coq/C16/Model.v (+ coq/C16/ModelWaitL.v: multi-id waits; the line protocol of the driver runs ModelWaitL.xstep for every op) "
+                   "of jobs.py/qserve.py/rpcserver connection life cycle; tie = differential run after every op",
                    "gevent (hub FIFO callback order, AsyncResult/Event/kill semantics): exercised, modelled only as the explicit FIFO s_hub",
-                   "harness vt/harness/c16_impl.py: in-hub driver, snapshot/canonicalisation code, AsyncResult subclass that records its owner, patched random.choice/time.time in qs.jobs, "
+                   "harness vt/harness/c16_impl.py: in-hub driver, snapshot/canonicalisation code (internals read through adapters; an unreadable internal breaks "
+                   "the tie on it = obligation white-box-snapshot-readable, the monitors keep running), AsyncResult subclass that records its owner, "
+                   "qs.jobs.random replaced by an object that answers EVERY kind of draw (choice/randrange/randint/sample/shuffle/...) from the history's Choice ops, time.time patched in qs.jobs, "
                    "Event subclass whose wait(timeout=t) expires on the virtual clock (wait() without timeout is gevent's own)",
                    "pickle (C18)"]
     run.assumptions = ["client supplied job ids are strings (an integer id given by a client can collide with a server-chosen serial: outside the alphabet)",
@@ -244,7 +253,9 @@ def check(run, prop):
     disagreements = []
     viols = {}
     nviol = {}
-    tot = {"n": 0, "diff": 0}
+    tot = {"n": 0, "diff": 0, "herr": 0}
+    herr = []
+    unreadable = {}
 
     def keep_smallest(lst, cap=2000):
         if len(lst) > 2 * cap:
@@ -258,6 +269,12 @@ def check(run, prop):
                 kinds[a] = kinds.get(a, 0) + b
             lens[len(h)] = lens.get(len(h), 0) + 1
             tot["n"] += 1
+            if "harness_error" in r:
+                tot["herr"] += 1
+                if len(herr) < 3:
+                    herr.append("%s :: %s" % (";".join(h), r["harness_error"][-600:]))
+            for f in r.get("unreadable", ()):
+                unreadable[f] = unreadable.get(f, 0) + 1
             nontrivial = k.get("out:deliver", 0) > 0 and (k.get("L", 0) > 0 or k.get("out:died", 0) > 0 or k.get("R", 0) > 0)
             run.count(";".join(h), nontrivial=nontrivial)
             if nontrivial and sample:
@@ -321,6 +338,14 @@ def check(run, prop):
     if tot["diff"] > len(shown):
         shown.append("(%d histories with a disagreement in all)" % tot["diff"])
     run.tie("queue model vs real workq+QPlugin under gevent: return values and canonical snapshot after every op", nhist, shown)
+    # fail closed, but only AFTER the monitors have run on every history: internals the property does not mention that changed their
+    # representation break the tie on them (and the verdict), not the search for a concrete failing history
+    run.obligation("harness-ran-every-history", tot["herr"] == 0,
+                   "%d of %d histories could not be run to the end by the harness%s" % (tot["herr"], nhist, "".join(" | " + x for x in herr)))
+    run.obligation("white-box-snapshot-readable", not unreadable,
+                   "internals of workq/QPlugin the tie reads (id2job, channel2q, _waiters, timeoutq, _channel2count, running_jobs as {id: job}) "
+                   "that could not be read on this code, with the number of histories: %s; the tie skipped them, the monitors ran" % (
+                       json.dumps(unreadable, sort_keys=True) if unreadable else "none"))
     for mon, lst in sorted(viols.items()):
         lst.sort(key=lambda x: (len(x[0]), x[0]))
         h, v = lst[0]
